@@ -117,3 +117,6 @@ package messagesfactory
 //@   ensures (preparedMessages == nil) == (result.content.SignedHeader().PreparedProof() == nil || len(result.content.SignedHeader().PreparedProof().Raw()) == 0)
 //@   ensures preparedMessages != nil && preparedMessages.PreprepareMessage != nil ==> result.block == preparedMessages.PreprepareMessage.block
 //@   ensures preparedMessages == nil ==> result.block == nil
+// A-MB-RT (assumed at call sites): a vote the factory builds is canonical - encoding the fields read back from it
+// field by field gives its own header bytes again (exercised by the bounded round-trip run)
+//@   assume [A-MB-RT.a-built-vote-is-canonical] content(result.content.SignedHeader().Raw()) == ReencVC(result.content.SignedHeader())
